@@ -30,9 +30,10 @@ def _case(job):
     _scratch_cwd()
     out = c["outcome"]
     vr = bool(c["vr"])
-    req = 7.0 if vr else 4.5
+    large = bool(c.get("large", False))
+    req = pairs.REQ[(large, vr)]
     if out == "unchanged":
-        a, b = pairs.near_threshold(rnd, 7.0, (-0.8, -0.05))
+        a, b = pairs.near_threshold(rnd, 7.0, (-0.8, -0.05)) if rnd.random() < 0.5 else pairs.near_threshold(rnd, req, (-0.25, -0.02))
     elif out == "fixed":
         a, b = pairs.near_threshold(rnd, req, (0.01, 0.12))
     else:
@@ -44,14 +45,14 @@ def _case(job):
     vis = c["vis"]
     show, save = vis in (1, 3), vis in (2, 3)
     m = c["mode"]
-    ops = [["new", 1, E(text), E(bg), False], ["readable", 1], ["fix", 1, m, vr, False, False]]
+    ops = [["new", 1, E(text), E(bg), large], ["readable", 1], ["fix", 1, m, vr, False, False]]
     if vis:
         ops.append(["fix", 1, m, vr, show, save])
-        ops.append(["new", 2, E(text), E(bg), False])
+        ops.append(["new", 2, E(text), E(bg), large])
         ops.append(["fix", 2, m, vr, show, save])      # visible call FIRST on a fresh object, then the plain one
         ops.append(["fix", 2, m, vr, False, False])
     ops.append(["fix", 1, m, vr, False, False])
-    ents = [[E(text), E(bg)], [E("#777777"), E("#ffffff"), True], [E("bogus"), E("#fff")]]
+    ents = [[E(text), E(bg), large], [E("#777777"), E("#ffffff"), True], [E("bogus"), E("#fff")]]
     ops.append(["bulk", ents, m, vr, False])
     if save:
         ops.append(["bulk", ents, m, vr, True])
@@ -86,7 +87,7 @@ def main():
     r, cases = vlib.tlc_enumerate("QuietCases", "MC_QuietCases.cfg", "c")
     rep.add_model("QuietCases generator", r, "abstract cases replayed into the implementation")
     rep.extra["cases_enumerated_by_tlc"] = len(cases)
-    n = 330 if t == "quick" else len(cases) * 3
+    n = 420 if t == "quick" else len(cases) * 2
     chosen = [cases[k % len(cases)] for k in rnd.sample(range(len(cases) * 3), min(n, len(cases) * 3))]
     jobs = [(c, rnd.randrange(1 << 30)) for c in chosen]
     res = vlib.pool_map(_case, jobs, chunksize=3)
